@@ -20,6 +20,8 @@ def run(ctx):
     ctx.rule("R4", "the pre-hash encoding of the serde-hashed types is positional and complete: every declared field is written unconditionally in declaration order (postcard is not self-describing)")
     from .. import serdepos
     serdepos.check(ctx, "R4")
+    ctx.rule("R5", "the comparisons that canonicalisation relies on (sort, dedup, set membership) are the derived structural PartialEq/Eq/Ord/Hash of the value types")
+    H.structural_traits(ctx, "R5")
     H.sort_before_hash(ctx, "R1", "essential_hash::contract_addr::from_predicate_addrs_slice", salt=True)
     H.sort_before_hash(ctx, "R1", "essential_hash::solution_set_addr::from_solution_addrs_slice", salt=False)
     H.delegation(ctx, "R2")
